@@ -31,7 +31,7 @@ def case_strategy(draw):
     nf = draw(st.integers(1, 40))
     nm = draw(st.integers(1, 25))
     rng = np.random.default_rng(draw(gen.SEEDS))
-    layout = draw(st.sampled_from(["uniform", "clustered", "overlapped", "far-tight"]))
+    layout = draw(st.sampled_from(["uniform", "clustered", "overlapped", "far-tight", "near-tie", "near-tie"]))
     if layout == "uniform":
         fixed = rng.uniform(-5, 5, (nf, 3))
         mob = rng.uniform(-5, 5, (nm, 3))
@@ -45,6 +45,22 @@ def case_strategy(draw):
         shift = gen.unit(rng) * 10.0 ** rng.uniform(1, 3)
         mob = rng.uniform(-1, 1, (nm, 3)) + shift
         fixed = mob[rng.integers(0, nm, nf)] + rng.normal(0, 10.0 ** rng.uniform(-6, -3), (nf, 3))
+    elif layout == "near-tie":
+        # some fixed atoms sit almost - not exactly - midway between two mobile atoms: the nearest one is well defined
+        # (the two squared distances differ by 1e-8 .. 1e-5 relative), a tolerance must not blur it
+        mob = rng.uniform(-1, 1, (nm, 3))
+        fixed = rng.uniform(-1, 1, (nf, 3))
+        if nm >= 2:
+            for i in range(nf):
+                if rng.random() < 0.6:
+                    a_, b_ = rng.choice(nm, size=2, replace=False)
+                    mid = 0.5 * (mob[a_] + mob[b_])
+                    axis = mob[b_] - mob[a_]
+                    L = float(np.linalg.norm(axis))
+                    if L > 1e-3:
+                        perp = np.cross(axis, gen.unit(rng))
+                        perp = perp / max(np.linalg.norm(perp), 1e-12) * rng.uniform(0, 0.5)
+                        fixed[i] = mid + perp + axis / L * L * 10.0 ** rng.uniform(-8, -5) * rng.choice([-1, 1])
     else:
         mob = rng.uniform(-1, 1, (nm, 3))
         fixed = mob[rng.integers(0, nm, nf)] + rng.normal(0, 0.1, (nf, 3))
